@@ -164,8 +164,8 @@ example : ∀ b ∈ d0.boxes, Genuine b := by
       | exact ⟨xb, xb.r, rfl, rfl, rfl⟩
       | rfl
 
-/-- the evaluation of `d0` under `F0` succeeds (finite check): the equality below is not an
-    equality of two errors -/
+-- the evaluation of `d0` under `F0` succeeds (finite check): the equality below is not an
+-- equality of two errors
 set_option maxRecDepth 100000 in
 example : (F0.call d0).toOption.isSome = true := by decide +kernel
 
